@@ -54,15 +54,27 @@ Print Assumptions C08_hull_refuted_extreme.
    (a) What is proved of the binary64 code (partial): with window >= 2 and inside the guard, one
        poll moves the average toward the reading, never past it and never away from it -- so
        under a constant reading the distance never grows and the side never changes.
-       MISSING for the full statement: the factor (1 - 1/n) with an explicit rounding slack
-       (about 2^-51 * max(|x|,|avg|) + 2^-1074 per poll); it is checked on the implementation's own
-       averages by the observer [contractsb] of Drv/Sensor.v but not yet proved for all inputs. *)
+       The factor (1 - 1/n) with its rounding slack is C08_converges below; the observer
+       [contractsb] of Drv/Sensor.v checks exactly that inequality (in exact integer arithmetic)
+       on the implementation's own averages. *)
 Theorem C08_converges_partial : forall k n a r v, 2 <= n < 2 ^ 63 ->
   boundedb a = true -> value_of k r = Some v -> boundedb v = true ->
   (fle a (poll k n a r) = true /\ fle (poll k n a r) v = true) \/
   (fle v (poll k n a r) = true /\ fle (poll k n a r) a = true).
 Proof. exact between_step. Qed.
 Print Assumptions C08_converges_partial.
+
+(* (a') The binary64 contraction, proved for the code's arithmetic: with window 2 <= n < 2^53 and
+       inside the guard, one poll with a valid reading x shrinks the remaining distance by the factor
+       (1 - 1/n) up to the rounding slack 8*uu*(|avg|+|x|) + 2*eta0 = 2^-50*(|avg|+|x|) + 2^-1074
+       (uu = 2^-53, eta0 = 2^-1075; R_of = real value of a finite float). Under a constant reading
+       this is the stated geometric approach, down to the rounding floor. *)
+Theorem C08_converges : forall k n a r v, 2 <= n < 2 ^ 53 ->
+  boundedb a = true -> value_of k r = Some v -> boundedb v = true ->
+  (Rabs (R_of v - R_of (poll k n a r)) <=
+   (1 - 1 / IZR n) * Rabs (R_of v - R_of a) + 8 * uu * (Rabs (R_of a) + Rabs (R_of v)) + 2 * eta0)%R.
+Proof. exact converges_step. Qed.
+Print Assumptions C08_converges.
 
 (* (b) The IDEALISATION (exact real arithmetic, no rounding -- a statement about the formula
        avg + (x - avg)/n, not about the code's floats): the distance to a constant reading
